@@ -82,8 +82,11 @@ fn checks() -> Vec<Check> {
 }
 
 fn main() {
-    proc::detach_tty();
     let args: Vec<String> = std::env::args().collect();
+    if args.len() >= 10 && args[1] == "scrypt-child" {
+        c18::child_main(&args[2..]);
+    }
+    proc::detach_tty();
     if args.len() < 2 {
         eprintln!("usage: kv <ID>|selftest|list [--tier quick|thorough] [--replay PATH]");
         std::process::exit(2);
